@@ -12,9 +12,13 @@ CONSTANTS
     MaxTasks = 2
     MaxDepth = 3
     Panics = TRUE
+    Discards = FALSE
     MaxSpans = 4
     IncomingKinds <- MC_IncAll
     WithLazy = TRUE
+    HasRng = TRUE
+    ExplicitKinds <- MC_ExNone
+    PushLastWins = TRUE
     WithCancel = TRUE
     CancelOwnIds = FALSE
     CtxForms <- MC_Forms
